@@ -36,6 +36,10 @@ logging.disable(logging.CRITICAL)
 H.PSUTIL_AVAILABLE = False  # psutil.cpu_percent(interval=0.1) blocks real time
 
 
+import contextvars  # noqa: E402
+_CUR_ACT = contextvars.ContextVar('verif_current_activation', default=0)
+
+
 class PuppetError(Exception):
     """Raised by scripted handlers (`raise` op)."""
 
@@ -162,6 +166,9 @@ class Rec:
         st = self.task_act.get(t)
         if st:
             return 'A:%d' % st[-1]
+        a = _CUR_ACT.get()
+        if a and a in self.open:       # a helper task spawned by an activation that is still running
+            return 'A:%d' % a
         return 'X'
 
     # ---- projection -------------------------------------------------------------------------
@@ -322,6 +329,7 @@ def _enter(rec, hdef, bus, event, sync):
         act = rec.nact
     t = asyncio.current_task()
     rec.task_act.setdefault(t, []).append(act)
+    _CUR_ACT.set(act)        # inherited by helper tasks the handler spawns (asyncio.gather, TaskGroup ...): they run *as* this activation
     owner = rec.exec_owner.get((bus.name, e, hdef['id']), '?')
     try:
         rb = event.event_bus.name
@@ -466,6 +474,33 @@ def make_async_handler(rec, hdef, bus):
                             raise
                         rec.open[act].pop('aw', None)
                         rec.log('AwE', act=act, e=rec.eid(c), canc=False, same=r is c)
+                elif k == 'ga':     # await several children through helper tasks: asyncio.gather / TaskGroup style (['ga', how, k1, k2, ...])
+                    cs = [kids[j] for j in op[2:] if j < len(kids) and kids[j] is not None]
+                    if cs:
+                        first = cs[0]
+                        rec.open[act]['aw'] = rec.eid(first)
+                        rec.log('AwB', act=act, e=rec.eid(first), also=[rec.eid(c) for c in cs[1:]])
+                        try:
+                            if op[1] == 'tg':
+                                async def _one(c):
+                                    return await c
+                                async with asyncio.TaskGroup() as tg:
+                                    ts = [tg.create_task(_one(c)) for c in cs]
+                                rs = [t.result() for t in ts]
+                            elif op[1] == 'ef':
+                                fs = [asyncio.ensure_future(c) for c in cs]
+                                rs = [await f for f in fs]
+                            else:
+                                rs = await asyncio.gather(*cs)
+                        except asyncio.CancelledError:
+                            rec.open.get(act, {}).pop('aw', None)
+                            rec.log('AwE', act=act, e=rec.eid(first), canc=True, same=True)
+                            raise
+                        rec.open[act].pop('aw', None)
+                        rec.log('AwE', act=act, e=rec.eid(first), canc=False, same=rs[0] is first)
+                        for c, r in zip(cs[1:], rs[1:]):     # the other children must be just as complete when the gather returns
+                            rec.log('AwB', act=act, e=rec.eid(c))
+                            rec.log('AwE', act=act, e=rec.eid(c), canc=False, same=r is c)
                 elif k == 'y':
                     for _ in range(op[1] if len(op) > 1 else 1):
                         await asyncio.sleep(0)
@@ -681,7 +716,8 @@ async def driver(rec, i, ops, state):
             ty, inc, exc_f, tmo = op[2], op[3], op[4], op[5]
             usepred = len(op) > 6 and op[6]
             xid = state['nexp'] = state.get('nexp', 0) + 1
-            rec.log('ExpB', d=i, x=xid, b=b.name, ty=ty, inc=inc, exc=exc_f, tmo=-1 if tmo is None else tmo)
+            # sub: will the call get as far as registering its temporary handler?  (not when it is cancelled before its first step)
+            rec.log('ExpB', d=i, x=xid, b=b.name, ty=ty, inc=inc, exc=exc_f, tmo=-1 if tmo is None else tmo, sub=not (len(op) > 7 and op[7]))
             rec.cur_expect = xid
             got = None
             err = ''
@@ -693,7 +729,23 @@ async def driver(rec, i, ops, state):
                     kw['predicate'] = FILTERS[inc]
                 else:
                     kw['include'] = FILTERS[inc]
-                got = await b.expect(ty, **kw)
+                mode = op[7] if len(op) > 7 else ''
+                if mode == 'task0':      # the call is wrapped in a task that is cancelled before its first step
+                    t0 = asyncio.ensure_future(b.expect(ty, **kw))
+                    t0.cancel()
+                    try:
+                        await t0
+                    except asyncio.CancelledError:
+                        if asyncio.current_task().cancelling():
+                            raise
+                        err = 'Cancelled'
+                elif mode == 'wf0':      # asyncio.wait_for(bus.expect(...), timeout=0): cancelled by the caller's own deadline at once
+                    try:
+                        await asyncio.wait_for(b.expect(ty, **kw), timeout=0)
+                    except TimeoutError:
+                        err = 'Cancelled'
+                else:
+                    got = await b.expect(ty, **kw)
             except asyncio.CancelledError:
                 rec.log('ExpE', d=i, x=xid, b=b.name, e=0, err='Cancelled')
                 raise
@@ -704,6 +756,8 @@ async def driver(rec, i, ops, state):
             finally:
                 if tmo is not None:
                     rec.sleepers -= 1
+            if err == 'Cancelled':
+                await asyncio.sleep(0)      # let the cancelled call unwind (its finally removes the subscription)
             rec.log('ExpE', d=i, x=xid, b=b.name, e=rec.eid(got) if got is not None else 0, err=err)
         elif k == 'on':  # bus.on(pattern, handler) at run time for a handler the scenario declares `late`
             hd = next(h for h in rec.scn['handlers'] if h['id'] == op[1])
